@@ -1,5 +1,5 @@
 """Registry of units and per-property texts (used for MANIFEST.json and the evidence files)."""
-UNITS = ["frame", "codec", "codec16", "gui", "per", "rc4", "engine", "session", "nego", "cssp"]
+UNITS = ["frame", "codec", "codec16", "gui", "per", "rc4", "engine", "session", "nego", "cssp", "mcs"]
 
 ENGINE_ASM = ("engine contract (prelude/model.rs): Component/Trame/Array/DynOption of src/model/data.rs are assumed to "
               "serialize as the in-order concatenation of their non-skipped fields and to read field by field "
@@ -8,7 +8,7 @@ IO_ASM = "std::io::Read/Write + byteorder contracts (prelude/base.rs): sized rea
 DUPLEX_ASM = "transport duplex axiom (prelude/base.rs axiom_duplex): reading does not change what was written and vice versa (rule R3 adds the marker bound)"
 
 # units under construction: never part of a property check
-DEV_UNITS = {"codec16", "rc4", "session", "nego", "cssp"}
+DEV_UNITS = {"codec16", "rc4", "session", "cssp", "mcs"}
 
 PROPERTIES = {
     "C13": dict(
@@ -71,6 +71,18 @@ PROPERTIES.update({
                    "Trusted in unit engine: Clone/PartialEq of Check<T> payloads are structural (axiom_check_payload; proved for u8, Vec<u8>, and the eq part for U16/U32)",
         assumptions=[IO_ASM, "axiom_check_payload (unit engine): clone() preserves the ghost view, == decides it for same-shape values"],
         design_ref="DESIGN.md §7 C18"),
+})
+
+TLS_ASM = "native-tls (prelude/tls.rs + Link::start_ssl stub): start_ssl returns an Ssl link whose certificate flag equals the argument, or an error (handshake / certificate validation failure); TLS itself is not verified"
+PROPERTIES.update({
+    "C02": dict(
+        scope="x224::Client::connect: Ok implies TLS is up on the returned client, the selected protocol is SSL or Hybrid AND was offered in the request mask ((selected as u32) & mask != 0), and the certificate-check flag given by the "
+              "caller is the one the TLS layer got; read_connection_confirm: only a negotiation RESPONSE (type 2) with a known protocol value selects, proved on the wire bytes (type = byte 7, selected = bytes 11..15 of the X.224 payload) for all 2^32 values; "
+              "tpkt::start_nla: cssp_connect's precondition `link.tls()` is discharged at its only call site (no CredSSP traffic on a raw link)",
+        technique="contract-based deductive verification: Verus (z3) on function bodies extracted from /repo on every run",
+        level_note="trusted: " + TLS_ASM + "; " + IO_ASM + "; " + ENGINE_ASM + " (the negotiation layout is static, so its wire decode is derived, not assumed); the Client-Info precondition (sec::connect requires TLS) is checked in unit connector",
+        assumptions=[TLS_ASM, IO_ASM, ENGINE_ASM, DUPLEX_ASM],
+        design_ref="DESIGN.md §7 C02"),
 })
 
 NOT_APPLICABLE = {
